@@ -4,6 +4,7 @@ CONSTANTS
   Voters <- V5
   W <- WMixed
   EqV <- V5
+  LeafBias = FALSE
   PVUnanimous = FALSE
   MaxPV = 2
   MaxPC = 2
